@@ -17,6 +17,9 @@ def run(c):
     # is checked exhaustively under C03), replayed on the real loop
     import loopx
     loopx.run_extra(c, 'C11', 'recvonly', exhaustive=False)
+    # the mirror passes on every kind of application DBI (plain, integer keys incl. values whose byte order differs
+    # from their numeric order, duplicate keys with the dupsort hack): capture, snapshot, mirror on a fresh receiver
+    vlib.absorb(c, vlib.run_harness(['converge-kinds', 'C11'], timeout=300))
     # the model of the code as it is must violate MirrorFaithful; replay TLC's counterexample on the code
     r = vlib.tlc('LSProtocol', 'LSProtocol_shadow_f3_mirror.cfg', workers=1, timeout=600, keep=True)
     if r.violation == 'MirrorFaithful':
